@@ -52,7 +52,8 @@ Inductive internal :=
 | IUnionAtRoot          (* union decoded without selector *)
 | IAuthNone             (* is_parameter_encryption on a malformed object *)
 | IStopOnSend           (* pump: processor finished on a byte send *)
-| IStaleNone.           (* pump: bytes(chain((None,), ...)) *)
+| IStaleNone            (* pump: bytes(chain((None,), ...)) *)
+| IListNotDone.         (* size_constraints.assert_done(): a listed constraint is still live *)
 
 Inductive out (A : Type) :=
 | Ok (a : A)
